@@ -614,7 +614,7 @@ func c02Locks(c *core.Ctx, root *packages.Package) {
 	info := root.TypesInfo
 	guarded := map[string]bool{"forks": true, "taskToForkKeys": true, "forkStats": true, "tasks": true}
 	// helpers that require the caller to hold tm.mu (documented / by construction)
-	requires := map[string]bool{"newFork": true, "delFork": true, "stopTask": true, "stream": true, "deleteTask": true}
+	requires := map[string]bool{"newFork": true, "delFork": true, "stream": true}
 	exempt := map[string]string{"NewTaskMaster": "constructor, before publication", "New": "constructor, before publication"}
 	type acc struct {
 		fn  *core.Func
